@@ -26,8 +26,8 @@ import vlib
 
 LEVEL = "model_checking"
 TIERS = {
-    "quick": dict(cases="Quadratics.cfg", target=120, skeleton={"MaxEvents": "3"}, chunk=120000),
-    "thorough": dict(cases="Quadratics_thorough.cfg", target=1500, skeleton={"MaxEvents": "4"}, chunk=150000),
+    "quick": dict(cases="Quadratics.cfg", target=120, skeleton={"MaxEvents": "4"}, chunk=120000),
+    "thorough": dict(cases="Quadratics_thorough.cfg", target=1500, skeleton={"MaxEvents": "9"}, chunk=150000),
 }
 # routines that must show a return justified by their stopping condition alone (vacuity)
 MUST_STOP = ["bfgs", "newton.root", "newton.crit", "newton.min", "rprop", "rprop.gradient", "gradientDescent",
